@@ -1,5 +1,7 @@
 import JominiModel.Model.BinLexer
 import JominiModel.Model.BinReader
+import JominiModel.Spec.BinLexer
+import JominiModel.Proofs.BinLexer
 import JominiModel.Generated.Tables
 /-
 C08 — Streaming binary reader equals the slice lexer; token encoding round-trips.
@@ -9,12 +11,57 @@ namespace Jomini.Props.C08
 open Jomini Jomini.BinLexer
 
 /-- the model's 13 lexeme id constants are the ones measured from the compiled code, and
-`isId` is false on exactly the measured reserved set. -/
+`isId` is false on exactly the measured reserved set (`LexemeId::is_id` probed on all 65536
+values). -/
 theorem C08_lexeme_ids_measured :
     Tables.binLexemeIds = [OPEN, CLOSE, EQUAL, U32, U64, I32, BOOL, QUOTED, UNQUOTED, F32, F64, RGB, I64]
-    ∧ (List.range 65536).filter (fun x => !isId x) = Tables.binReservedIds := by
+    ∧ (∀ x : Nat, isId x = false ↔ x ∈ Tables.binReservedIds) := by
   constructor
   · rfl
-  · decide +kernel
+  · intro x
+    simp only [isId, Tables.binReservedIds, OPEN, CLOSE, EQUAL, U32, U64, I32, BOOL, QUOTED, UNQUOTED,
+      F32, F64, RGB, I64, Bool.not_eq_eq_eq_not, Bool.not_false, Bool.or_eq_true, beq_iff_eq,
+      List.mem_cons, List.not_mem_nil, or_false]
+    constructor <;> (intro h; omega)
+
+/-- Token codec round trip: reading what `Token::write` wrote gives the token back and leaves
+exactly the bytes that followed; for a whole sequence the lexer returns the sequence, ends
+cleanly and consumes every byte.  `WfTok` excludes `Id x` for the 13 reserved ids and strings
+longer than 65535 bytes (both exclusions are real: see the harness counter
+`write:excluded-differs`). -/
+theorem C08_codec :
+    (∀ (t : Token) (r : Bytes), WfTok t → readToken (t.write ++ r) = .ok (t, r)) ∧
+    (∀ toks : List Token, (∀ t ∈ toks, WfTok t) →
+      lexAll (toks.flatMap Token.write) = (toks, .done, [])) :=
+  ⟨fun t r h => readToken_write t r h, lexAll_write⟩
+
+example : WfTok (.quoted [3, 0, 4, 0]) ∧ WfTok (.id 0x2838) ∧ WfTok (.rgb ⟨1, 2, 3, some 4⟩) ∧ WfTok (.i64 (-1)) := by
+  decide
+
+/-- the two exclusions of `WfTok` are not artefacts of the proof: a reserved id re-lexes as
+its lexeme, and a 65536-byte string's length prefix wraps to 0. -/
+theorem C08_codec_exclusions :
+    readToken ((Token.id OPEN).write) = .ok (.open, []) ∧
+    (∀ s : Bytes, s.length = 65536 →
+      readToken ((Token.quoted s).write) = .ok (.quoted [], s)) := by
+  constructor
+  · rfl
+  · intro s hs
+    have h0 : leBytes 2 s.length = [0, 0] := by rw [hs]; decide
+    simp only [Token.write, h0]
+    simp [readToken, P.bind, P.map, readId_le, readString, getSplit, leNat,
+      CLOSE, OPEN, EQUAL, U32, U64, I32, BOOL, QUOTED]
+
+/-- `read_token` is prefix stable: a verdict `ok` (with the same token, the unread rest
+extended) or `invalidRgb` reached on a window is the verdict on every extension of the
+window.  Consequently `eof` is the only verdict more input can change. -/
+theorem C08_prefix_stable (w s : Bytes) :
+    (∀ t r, readToken w = .ok (t, r) → readToken (w ++ s) = .ok (t, r ++ s)) ∧
+    (readToken w = .error .invalidRgb → readToken (w ++ s) = .error .invalidRgb) :=
+  ⟨fun t r h => readToken_stable.ok w s t r h, fun h => readToken_stable.rgb w s h⟩
+
+example : readToken [0x0c, 0, 1, 0, 0, 0] = .ok (.i32 1, []) := by rfl
+example : readToken [0x43, 2, 4, 0, 0, 0, 0, 0, 0, 0, 0, 0, 0, 0, 0, 0, 0, 0, 0, 0, 0, 0, 0, 0, 0, 0] = .error .invalidRgb := by
+  rfl
 
 end Jomini.Props.C08
